@@ -344,3 +344,53 @@ func CallsIn(f *ssa.Function, fn *ssa.Function) []ssa.CallInstruction {
 	})
 	return out
 }
+
+// Origin looks through interface/type conversions and through loads of a local cell that is
+// assigned exactly once (a parameter or local captured by a closure is spilled to such a cell).
+func Origin(v ssa.Value) ssa.Value {
+	for i := 0; i < 8; i++ {
+		v = Unwrap(v)
+		ld, ok := v.(*ssa.UnOp)
+		if !ok || ld.Op != token.MUL {
+			return v
+		}
+		a, ok := ld.X.(*ssa.Alloc)
+		if !ok {
+			return v
+		}
+		var only ssa.Value
+		n := 0
+		for _, r := range Referrers(a) {
+			if st, ok := r.(*ssa.Store); ok && st.Addr == a {
+				n++
+				only = st.Val
+			}
+		}
+		if n != 1 {
+			return v
+		}
+		// closures may also write the cell
+		escapesWritable := false
+		for _, r := range Referrers(a) {
+			if mc, ok := r.(*ssa.MakeClosure); ok {
+				fn := mc.Fn.(*ssa.Function)
+				for bi, b := range mc.Bindings {
+					if b != a {
+						continue
+					}
+					fv := fn.FreeVars[bi]
+					for _, fr := range Referrers(fv) {
+						if st, ok := fr.(*ssa.Store); ok && st.Addr == fv {
+							escapesWritable = true
+						}
+					}
+				}
+			}
+		}
+		if escapesWritable {
+			return v
+		}
+		v = only
+	}
+	return v
+}
